@@ -1,6 +1,7 @@
 (* C14 — Unix timestamps map to the right day and second (the system-clock part is in C14_sys.v). *)
 From JV Require Import Sem Gen Spec SpecX.
 From JV.Proofs Require Import SpecFacts Cal Core Inner Boundary.
+Require JV.Proofs.Glue_C14_core.
 Open Scope Z_scope.
 Ltac Zify.zify_post_hook ::= Z.to_euclidean_division_equations.
 
@@ -10,21 +11,17 @@ Proof. exact unix2jdn_ok. Qed.
 Print Assumptions C14_unix2jdn.
 (* the day number fits in 32 bits exactly for the documented range of timestamps *)
 Theorem C14_range : forall t, in_i32b (t / 86400 + 2440588) = true <-> -185753453990400 <= t <= 185331720383999.
-Proof. intros t. unfold in_i32b, i32_min, i32_max. lia. Qed.
+Proof. exact JV.Proofs.Glue_C14_core.C14_range_lemma. Qed.
 Print Assumptions C14_range.
 Theorem C14_jdn2unix_midnight : forall j, in_i32 j ->
   jdn2unix j = Ret ((j - 2440588) * 86400) /\ unix2jdn ((j - 2440588) * 86400) = Ret (Ok (j, 0)).
-Proof.
-  intros j H. split; [apply jdn2unix_ok; exact H|]. rewrite unix2jdn_ok by range.
-  replace ((j - 2440588) * 86400 / 86400 + 2440588) with j by lia. replace ((j - 2440588) * 86400 mod 86400) with 0 by lia.
-  replace (in_i32b j) with true; [reflexivity|]. symmetry. apply in_i32b_iff. exact H.
-Qed.
+Proof. exact JV.Proofs.Glue_C14_core.C14_jdn2unix_midnight_lemma. Qed.
 Print Assumptions C14_jdn2unix_midnight.
 Theorem C14_at_unix_time : forall c t, ValidCal c -> in_i64 t ->
   Calendar_at_unix_time (cal_of c) t =
   Ret (if in_i32b (t / 86400 + 2440588) then Ok (date_of c (t / 86400 + 2440588), t mod 86400) else Err mkArithmeticError) /\
   (in_i32 (t / 86400 + 2440588) -> Calendar_at_jdn (cal_of c) (t / 86400 + 2440588) = Ret (date_of c (t / 86400 + 2440588))).
-Proof. intros c t V H. split; [apply at_unix_time_ok; assumption|intros Hj; apply AtJdn.at_jdn_ok; assumption]. Qed.
+Proof. exact JV.Proofs.Glue_C14_core.C14_at_unix_time_lemma. Qed.
 Print Assumptions C14_at_unix_time.
 Example C14_ex : unix2jdn 1682906621 = Ret (Ok (2460066, 7421)) /\ unix2jdn (-1) = Ret (Ok (2440587, 86399)) /\
   unix2jdn 185331720384000 = Ret (Err mkArithmeticError) /\ unix2jdn (-185753453990401) = Ret (Err mkArithmeticError).
